@@ -362,6 +362,7 @@ class SymInt:
     def __pos__(self): return self
     def __abs__(self): return ite(self < 0, -self, self)
     def __mul__(self, o):
+        if isinstance(o, float): return SymScaled(self, o)
         o = lift(o)
         if o is None: return NotImplemented
         if o.conc() == 1: return self
@@ -528,6 +529,26 @@ class SymInt:
     def to_bytes(self, length=1, byteorder='big', *, signed=False):
         from . import pysym
         return pysym.m_int_to_bytes(self, length, byteorder, signed=signed)
+
+
+class SymScaled:
+    """x * f for a symbolic int x and a concrete float f, kept exact (x and f separately): used for
+    duration conversions such as `dt_ns * 1e-9`; only the stubs that receive it look inside."""
+    def __init__(self, x, f): self.x = x; self.f = f
+    def __mul__(self, o):
+        if isinstance(o, (int, float)): return SymScaled(self.x, self.f * o)
+        return NotImplemented
+    __rmul__ = __mul__
+    def __floordiv__(self, o):
+        if isinstance(o, (int, float)): return SymScaled(self.x, self.f / o)
+        return NotImplemented
+    __truediv__ = __floordiv__
+    def __format__(self, spec): return '<sym-scaled>'
+    def __repr__(self): return '<SymScaled *%r>' % self.f
+    def __float__(self): raise Unsupported('concretisation of a scaled symbolic value')
+    def __int__(self): raise Unsupported('concretisation of a scaled symbolic value')
+    def __lt__(self, o): raise Unsupported('comparison of a scaled symbolic value')
+    __gt__ = __le__ = __ge__ = __lt__
 
 
 class SymQuot:
